@@ -747,6 +747,9 @@ class Cache:
                 assert self._txn_id == tid
                 self._txn_id = None
                 sql('ROLLBACK')
+                if filename is not None:
+                    # The row for the freshly written file was rolled back.
+                    _disk_remove(filename)
             raise
         else:
             if begin:
